@@ -89,7 +89,7 @@ func symName(v ssa.Value) string {
 		if bi, ok := x.Call.Value.(*ssa.Builtin); ok {
 			return bi.Name() + "(" + symName(x.Call.Args[0]) + ")"
 		}
-		return describeCall(x) + "()"
+		return describeCall(x) + "()#" + x.Name()
 	case *ssa.Alloc:
 		return "local:" + x.Comment
 	}
